@@ -239,3 +239,9 @@ def _values(ip, args, kw):
 @spec("is_str_")
 def _is_str(ip, args, kw):
     return ZB(L.is_str(as_v(args[0])))
+
+
+@spec("entry")
+def _entry(ip, args, kw):
+    """entry('param'): the value the parameter had when the function was entered (parameters are mutable locals)."""
+    return ip.entry_env[args[0].value]
